@@ -38,7 +38,7 @@ def run(repo, rep):
     rep.assumptions = ['mutating-method table', 'call graph resolved by name']
     n_inv, cone, shared, sites, cone_sites = SS.check_write_inventory(repo, rep, 'C19.a')
     rep.floor('C19.a', n_inv, 4)
-    rep.floor('C19.a:promotion', SS.promotion_consistency(repo, rep, 'C19.a'), 8)
+    rep.floor('C19.a:promotion', SS.promotion_consistency(repo, rep, 'C19.a'), 3)
     rep.floor('C19.a:visited', SS.fresh_visited(repo, rep, 'C19.a'), 8)
     regs = facts.registry(repo)
 
